@@ -5,6 +5,7 @@ import (
 	"go/token"
 	"go/types"
 	"sort"
+	"strings"
 
 	"golang.org/x/tools/go/ssa"
 )
@@ -454,7 +455,7 @@ func (w *World) globalFrozen(g *ssa.Global) bool {
 			for _, ins := range b.Instrs {
 				switch x := ins.(type) {
 				case *ssa.Store:
-					if x.Addr == ssa.Value(g) && fn.Name() != "init" {
+					if x.Addr == ssa.Value(g) && fn.Name() != "init" && !strings.HasPrefix(fn.Name(), "init#") {
 						return false
 					}
 					if x.Val == ssa.Value(g) {
